@@ -124,6 +124,16 @@ struct PositionTracker
         line += n;
         parser->add_position(position, offset, line, path);
     }
+
+    /**
+     * Increments line by one for a line break inside the token that was just counted: the new line
+     * starts \a back characters before the current position.
+     */
+    void newline_within(UTAP::ParserBuilder* parser, uint32_t back)
+    {
+        ++line;
+        parser->add_position(position - back, offset - back, line, path);
+    }
 };
 
 extern PositionTracker tracker;  // defined in lexer.l
